@@ -657,3 +657,20 @@ V('C06', 'nulldummy-compared-with-int', EVAL, "if stack[-1] != b'':", "if stack[
 V('C15', 'level-offset-assigned', CORE, "            j += size", "            j = size", 'C15.M2', scope='CBlock.build_merkle_tree_from_txids')
 V('C02', 'witness-null-asks-last-entry', CORE, "if not self.vtxinwit[n].is_null(): return False", "if not self.vtxinwit[-1].is_null(): return False", 'C02.W1', scope='CTxWitness.is_null')
 V('C20', 'full-filter-test-admits-empty', BLOOM, "        if len(self.vData) == 1 and self.vData[0] == 0xff:\n            return True", "        if len(self.vData) <= 1 and self.vData[0] == 0xff:\n            return True", 'C20.G1', scope='CBloomFilter.contains')
+
+# ------------------------------------------------------------------------------------------------ one-line twins (round 10)
+V('C01', 'benign-read-to-the-end-explicit', SER, '            padding = fd.read()', '            padding = fd.read(-1)', 'SILENT', scope='Serializable.deserialize')
+V('C06', 'benign-tuck-negative-position', EVAL, 'stack.insert(len(stack) - 2, vch)', 'stack.insert(-2, vch)', 'SILENT', scope='_EvalScript')
+V('C10', 'benign-version-byte-last-of-one', B58, 'return cls.from_bytes(data, verbyte[0])', 'return cls.from_bytes(data, verbyte[-1])', 'SILENT', scope='CBase58Data.__new__')
+V('C13', 'benign-compression-flag-arms-exchanged', WALLET, "(b'\\x01' if compressed else b'')", "(b'' if not compressed else b'\\x01')", 'SILENT', scope='CBitcoinSecret.from_secret_bytes')
+V('C19', 'benign-id-counter-minus-minus-one', RPC, '        self.__id_count += 1', '        self.__id_count -= -1', 'SILENT', scope='BaseProxy._call')
+V('C11', 'benign-separator-search-from-zero', SEGWIT, "pos = bech.rfind('1')", "pos = bech.rfind('1', 0)", 'SILENT', scope='bech32_decode')
+V('C03', 'benign-filler-default-restated', SCRIPT, 'txtmp.vout.append(bitcoin.core.CTxOut())', 'txtmp.vout.append(bitcoin.core.CTxOut(-1))', 'SILENT', scope='RawSignatureHash')
+V('C16', 'benign-enumerate-from-zero', CORE, 'for index, out in enumerate(self.vtx[0].vout):', 'for index, out in enumerate(self.vtx[0].vout, 0):', 'SILENT', scope='CBlock.get_witness_commitment_index')
+V('C17', 'benign-limb-format-repeat-count', SER, 'struct.unpack(b"<IIIIIIII", s[:32])', 'struct.unpack(b"<8I", s[:32])', 'SILENT', scope='uint256_from_str')
+# ... and near misses
+V('C06', 'tuck-position-one-below-top', EVAL, 'stack.insert(len(stack) - 2, vch)', 'stack.insert(-1, vch)', 'C06.S1', scope='_EvalScript')
+V('C11', 'separator-search-from-one', SEGWIT, "pos = bech.rfind('1')", "pos = bech.find('1', 0)", 'C11.R1', scope='bech32_decode')
+V('C03', 'filler-value-zero', SCRIPT, 'txtmp.vout.append(bitcoin.core.CTxOut())', 'txtmp.vout.append(bitcoin.core.CTxOut(0))', 'C03.D1', scope='RawSignatureHash')
+V('C13', 'compression-flag-arms-exchanged-only', WALLET, "(b'\\x01' if compressed else b'')", "(b'' if compressed else b'\\x01')", 'C13.L1', scope='CBitcoinSecret.from_secret_bytes')
+V('C16', 'enumerate-from-one', CORE, 'for index, out in enumerate(self.vtx[0].vout):', 'for index, out in enumerate(self.vtx[0].vout, 1):', 'UNDECIDED:C16.D1', scope='CBlock.get_witness_commitment_index')
